@@ -21,35 +21,7 @@ use world::*;
 /// sizes of the compressed headers for a scenario; used ONLY to pick boundary payload lengths in
 /// the quick tier (stimulus selection); the thorough tier runs every length.
 fn header_sizes(scn: &Scn) -> (usize, usize, usize, usize) {
-    let l2 = |hw: HwKind| if hw == HwKind::Ext { 8 } else { 2 };
-    let mac = 3 + 2 + if scn.dst.is_mcast() { 2 } else { l2(scn.r_hw) } + l2(scn.s_hw);
-    let a = |c: AddrClass| match c {
-        AddrClass::LlHw => 0,
-        AddrClass::Ll16 => 2,
-        AddrClass::Ll64 => 8,
-        AddrClass::Global | AddrClass::Ctx | AddrClass::McFull => 16,
-        AddrClass::McAllNodes | AddrClass::Mc8 => 1,
-        AddrClass::Mc32 => 4,
-        AddrClass::Mc48 | AddrClass::McSolicited => 6,
-    };
-    let hlb = if matches!(scn.hl, 1 | 64 | 255) { 0 } else { 1 };
-    let iphc = 2 + hlb + a(scn.src) + a(scn.dst);
-    match scn.proto() {
-        Proto::Udp => {
-            let both4 = |p: u16| (0xf0b0..=0xf0bf).contains(&p);
-            let any8 = |p: u16| (0xf000..=0xf0ff).contains(&p);
-            let ports = if both4(scn.sport) && both4(scn.dport) {
-                1
-            } else if any8(scn.sport) || any8(scn.dport) {
-                3
-            } else {
-                4
-            };
-            // (mac, compressed hdr, uncompressed hdr, body bytes that are not payload)
-            (mac, iphc + 3 + ports, 48, 0)
-        }
-        _ => (mac, iphc + 1, 40, 8),
-    }
+    hdr_sizes(scn.s_hw, scn.r_hw, scn.src, scn.dst, scn.sport, scn.dport, scn.hl, scn.proto())
 }
 
 fn boundary_lens(scn: &Scn) -> Vec<usize> {
@@ -91,6 +63,7 @@ fn all_lens(uh_extra: usize) -> Vec<usize> {
 struct Plan {
     udp: Vec<(Scn, Vec<usize>, Option<usize>)>,
     b2b: Vec<Scn>,
+    seq: Vec<Scn>,
     perm: Vec<Scn>,
     icmp: Vec<Scn>,
     tcp: Vec<Scn>,
@@ -170,6 +143,97 @@ fn plan(tier: Tier) -> Plan {
                     for dp in PORTS {
                         for hl in HOP_LIMITS {
                             push_udp(sh, rh, *s, *d, true, 1500, sp, dp, hl);
+                        }
+                    }
+                }
+            }
+        }
+    }
+
+    // D: other pre-fill patterns of the transmit buffers (every header bit sees both polarities)
+    for fill in [0x5au8, 0xff, 0x00] {
+        for (s, d) in addr_pairs_ext() {
+            for (sp, dp) in [(1234u16, 1234u16), (0xf012, 0xf0b7)] {
+                for hl in [64u8, 7] {
+                    let mut j = Scn::base("udp");
+                    j.src = s;
+                    j.dst = d;
+                    j.sport = sp;
+                    j.dport = dp;
+                    j.hl = hl;
+                    j.fill = fill;
+                    let lens = if thorough { (0..=440usize).chain([1400usize, 1452]).collect() } else { boundary_lens(&j).into_iter().filter(|l| *l <= 1452).collect() };
+                    let (mac, ch, _, _) = header_sizes(&j);
+                    udp.push((j, lens, 125usize.checked_sub(mac + ch)));
+                }
+            }
+        }
+    }
+
+    // sequences: datagram 1, poll to quiescence, datagram 2 on the same interfaces (state that
+    // survives in the long-lived fragmentation buffer / reassembly slots / header setters)
+    let mut seq: Vec<Scn> = vec![];
+    {
+        let all_dst: Vec<AddrClass> = UNICAST_CLASSES.iter().chain(MCAST_CLASSES.iter()).copied().collect();
+        let mut push_seq = |sh: HwKind, f: Dgp, m: Dgp, c1: usize, c2: usize, fill: u8| {
+            let mut j = Scn::base("seq");
+            j.s_hw = sh;
+            j.src = m.src;
+            j.dst = m.dst;
+            j.sport = m.sport;
+            j.dport = m.dport;
+            j.hl = m.hl;
+            j.fill = fill;
+            let mut f = f;
+            f.len = size_class_lens(sh, HwKind::Ext, &f)[c1];
+            j.lens = vec![size_class_lens(sh, HwKind::Ext, &m)[c2]];
+            j.first = Some(f);
+            if j.feasible() {
+                seq.push(j);
+            }
+        };
+        let dg = |src: AddrClass, dst: AddrClass, sp: u16, dp: u16, hl: u8| Dgp { src, dst, sport: sp, dport: dp, hl, len: 0 };
+        // family A: every ordered pair of (destination class, size class)
+        let a_srcs: Vec<AddrClass> = if thorough { UNICAST_CLASSES.to_vec() } else { vec![AddrClass::LlHw, AddrClass::Global] };
+        let a_ports: Vec<(u16, u16)> = if thorough { vec![(1234, 1234), (0xf012, 0xf0b7)] } else { vec![(1234, 1234)] };
+        let a_fills: Vec<u8> = if thorough { vec![0xa5, 0x5a] } else { vec![0xa5] };
+        for sh in [HwKind::Ext, HwKind::Short] {
+            for src in &a_srcs {
+                for d1 in &all_dst {
+                    for d2 in &all_dst {
+                        for (sp, dp) in &a_ports {
+                            for fill in &a_fills {
+                                for c1 in 0..3 {
+                                    for c2 in 0..3 {
+                                        push_seq(sh, dg(*src, *d1, *sp, *dp, 64), dg(*src, *d2, *sp, *dp, 64), c1, c2, *fill);
+                                    }
+                                }
+                            }
+                        }
+                    }
+                }
+            }
+        }
+        // family B: source class, hop limit and port pair change between the two datagrams
+        let b_srcs: Vec<AddrClass> = if thorough { UNICAST_CLASSES.to_vec() } else { vec![AddrClass::LlHw, AddrClass::Ll16, AddrClass::Global] };
+        let b_hls: Vec<u8> = if thorough { HOP_LIMITS.to_vec() } else { vec![64, 7] };
+        let b_ports: Vec<(u16, u16)> = if thorough { vec![(1234, 1234), (0xf012, 1234), (1234, 0xf0b7), (0xf0b7, 0xf0b1)] } else { vec![(1234, 1234), (0xf012, 0xf0b7)] };
+        for d1 in [AddrClass::LlHw, AddrClass::McAllNodes] {
+            for d2 in [AddrClass::LlHw, AddrClass::McAllNodes] {
+                for s1 in &b_srcs {
+                    for s2 in &b_srcs {
+                        for h1 in &b_hls {
+                            for h2 in &b_hls {
+                                for p1 in &b_ports {
+                                    for p2 in &b_ports {
+                                        for c1 in [0usize, 2] {
+                                            for c2 in [0usize, 2] {
+                                                push_seq(HwKind::Ext, dg(*s1, d1, p1.0, p1.1, *h1), dg(*s2, d2, p2.0, p2.1, *h2), c1, c2, 0xa5);
+                                            }
+                                        }
+                                    }
+                                }
+                            }
                         }
                     }
                 }
@@ -320,18 +384,21 @@ fn plan(tier: Tier) -> Plan {
             "lengths of the first job": udp.first().map(|(_, l, _)| l.len()),
             "exchanges in total": udp.iter().map(|(_, l, _)| l.len()).sum::<usize>(),
         },
+        "seq": {"scenarios": seq.len(), "family A": "ordered pairs of (destination class x size class {1 frame, 2 frames, 3 frames}) for datagram 1 and 2, per source class, sender hw kind {ext, short}", "family B": "source class, hop limit, port pair and size class {1 frame, 3 frames} all change between datagram 1 and 2; destinations {ll-hw, ff02::1}^2",
+            "tx buffer pre-fill": "0xa5 (thorough family A also 0x5a)"},
+        "udp_prefill_variants": "all ext-ext address pairs x 2 port pairs x 2 hop limits with transmit buffers pre-filled 0x5a, 0xff, 0x00 (everything else 0xa5)",
         "b2b": {"scenarios": b2b.len(), "sizes (each of two datagrams)": b2b_sizes, "address pairs": b2b_pairs.len(), "port pairs": b2b_ports.len()},
         "perm": {"captures": perm.len(), "address pairs": perm_pairs.len(), "port pairs": perm_ports.len(), "sequences": "n!: 2/6/24 permutations; n<=3: + every permutation with one fragment inserted a second time at any position (6 resp. 36 distinct sequences more)"},
         "icmp": {"scenarios": icmp.len(), "address configs": UNICAST_CLASSES.len() * icmp_dsts.len(), "hop limits": HOP_LIMITS},
         "tcp": {"scenarios": tcp.len(), "bytes each way": tcp_n, "address pairs": tcp_pairs.len(), "device mtu": [1500, 125], "hop limits": tcp_hl},
     });
-    Plan { udp, b2b, perm, icmp, tcp, dims }
+    Plan { udp, b2b, seq, perm, icmp, tcp, dims }
 }
 
 fn run_one(scn: &Scn, acc: &mut Acc) {
     match scn.part.as_str() {
         "udp" => run_udp_job(scn, &scn.lens.clone(), None, false, acc),
-        "b2b" => run_b2b(scn, acc),
+        "b2b" | "seq" => run_b2b(scn, acc),
         "icmp" => run_icmp(scn, acc),
         "tcp" => run_tcp(scn, acc),
         "mld" => run_mld(acc),
@@ -413,45 +480,166 @@ fn finalize(sig: &str, scn: &Scn, _detail: &str) -> Result<(String, Scn, String)
     let Some((mut det, mut flag)) = check(&cur, &prefix) else {
         return Err(format!("replay of {} does not reproduce it", sig));
     };
-    let mut cands: Vec<Box<dyn Fn(&Scn) -> Scn>> = vec![
-        Box::new(|s| Scn { s_hw: HwKind::Ext, r_hw: HwKind::Ext, ..s.clone() }),
-        Box::new(|s| Scn { s_hw: HwKind::Ext, ..s.clone() }),
-        Box::new(|s| Scn { r_hw: HwKind::Ext, ..s.clone() }),
-        Box::new(|s| Scn { pan: true, ..s.clone() }),
-        Box::new(|s| Scn { mtu: 1500, ..s.clone() }),
-        Box::new(|s| Scn { hl: 64, ..s.clone() }),
-        Box::new(|s| Scn { src: AddrClass::LlHw, ..s.clone() }),
-        Box::new(|s| Scn { dst: AddrClass::LlHw, ..s.clone() }),
-    ];
+    // Each step proposes variants of the current scenario with ONE dimension reset to its
+    // baseline; the first variant that still fails is adopted. Variants keep the size class
+    // (a reset changes the header sizes, hence which lengths fragment): for "seq" the lengths
+    // are re-derived from the size classes, for single datagrams a large length is also tried.
+    type Step = Box<dyn Fn(&Scn) -> Vec<Scn>>;
+    fn class_idx(s_hw: HwKind, r_hw: HwKind, d: &Dgp) -> usize {
+        match size_class(s_hw, r_hw, d) {
+            "1-frame" => 0,
+            "2-frames" => 1,
+            _ => 2,
+        }
+    }
+    fn variants(orig: &Scn, t: Scn) -> Vec<Scn> {
+        if orig.part == "seq" && t.part == "seq" && orig.lens.len() == 1 {
+            let (Some(of), Some(tf)) = (&orig.first, &t.first) else { return vec![t] };
+            let c1 = class_idx(orig.s_hw, orig.r_hw, of);
+            let c2 = class_idx(orig.s_hw, orig.r_hw, &orig.main_dg(orig.lens[0]));
+            let mut out = vec![];
+            for (a, b) in [(c1, c2), (2, 2)] {
+                let mut v = t.clone();
+                let mut f = tf.clone();
+                f.len = size_class_lens(t.s_hw, t.r_hw, &f)[a];
+                v.lens = vec![size_class_lens(t.s_hw, t.r_hw, &t.main_dg(0))[b]];
+                v.first = Some(f);
+                out.push(v);
+            }
+            out
+        } else if orig.part == "udp" && t.part == "udp" && t.lens.len() == 1 {
+            vec![t.clone(), Scn { lens: vec![1400], ..t.clone() }, Scn { lens: vec![300], ..t }]
+        } else {
+            vec![t]
+        }
+    }
+    fn dim(m: fn(&mut Scn)) -> Step {
+        Box::new(move |s| {
+            let mut t = s.clone();
+            m(&mut t);
+            variants(s, t)
+        })
+    }
+    let mut steps: Vec<Step> = vec![];
+    if scn.part == "seq" {
+        // the second datagram alone / the first datagram alone
+        steps.push(Box::new(|s| if s.part == "seq" { vec![Scn { part: "udp".into(), first: None, ..s.clone() }] } else { vec![] }));
+        steps.push(Box::new(|s| match &s.first {
+            Some(f) if s.part == "seq" => vec![Scn { part: "udp".into(), first: None, src: f.src, dst: f.dst, sport: f.sport, dport: f.dport, hl: f.hl, lens: vec![f.len], ..s.clone() }],
+            _ => vec![],
+        }));
+    }
+    if scn.part == "b2b" {
+        steps.push(Box::new(|s| if s.part == "b2b" { vec![Scn { part: "udp".into(), lens: vec![s.lens[0]], ..s.clone() }] } else { vec![] }));
+        steps.push(Box::new(|s| if s.part == "b2b" { vec![Scn { part: "udp".into(), lens: vec![*s.lens.last().unwrap()], ..s.clone() }] } else { vec![] }));
+    }
+    steps.push(dim(|t| t.fill = FILL));
+    steps.push(dim(|t| {
+        t.s_hw = HwKind::Ext;
+        t.r_hw = HwKind::Ext;
+    }));
+    steps.push(dim(|t| t.s_hw = HwKind::Ext));
+    steps.push(dim(|t| t.r_hw = HwKind::Ext));
+    steps.push(dim(|t| t.pan = true));
+    steps.push(dim(|t| t.mtu = 1500));
+    steps.push(dim(|t| t.hl = 64));
+    steps.push(dim(|t| t.src = AddrClass::LlHw));
+    steps.push(dim(|t| t.dst = AddrClass::LlHw));
+    // any multicast destination -> the simplest one
+    steps.push(dim(|t| {
+        if t.dst.is_mcast() {
+            t.dst = AddrClass::McAllNodes
+        }
+    }));
     if scn.proto() == Proto::Udp {
         // the port PAIR selects one NHC encoding branch: reset it as a whole (resetting one port
         // would move the scenario into a different branch, possibly into a different defect)
-        cands.push(Box::new(|s| Scn { sport: 1234, dport: 1234, ..s.clone() }));
+        steps.push(dim(|t| {
+            t.sport = 1234;
+            t.dport = 1234;
+        }));
     }
-    if scn.part == "b2b" {
-        cands.push(Box::new(|s| Scn { part: "udp".into(), lens: vec![s.lens[0]], ..s.clone() }));
-        cands.push(Box::new(|s| Scn { part: "udp".into(), lens: vec![*s.lens.last().unwrap()], ..s.clone() }));
+    if scn.part == "seq" {
+        fn on_first(t: &mut Scn, g: fn(&mut Dgp)) {
+            if t.part == "seq" {
+                if let Some(f) = t.first.as_mut() {
+                    g(f)
+                }
+            }
+        }
+        steps.push(dim(|t| on_first(t, |f| f.src = AddrClass::LlHw)));
+        steps.push(dim(|t| on_first(t, |f| f.dst = AddrClass::LlHw)));
+        steps.push(dim(|t| {
+            on_first(t, |f| {
+                if f.dst.is_mcast() {
+                    f.dst = AddrClass::McAllNodes
+                }
+            })
+        }));
+        steps.push(dim(|t| on_first(t, |f| f.hl = 64)));
+        steps.push(dim(|t| {
+            on_first(t, |f| {
+                f.sport = 1234;
+                f.dport = 1234;
+            })
+        }));
+        // smaller size classes, first then second datagram
+        for c in [0usize, 1] {
+            steps.push(Box::new(move |s| {
+                let mut t = s.clone();
+                if let (Some(f), true) = (t.first.as_mut(), s.part == "seq") {
+                    let l = size_class_lens(s.s_hw, s.r_hw, f)[c];
+                    if l < f.len {
+                        f.len = l;
+                        return vec![t];
+                    }
+                }
+                vec![]
+            }));
+        }
+        for c in [0usize, 1] {
+            steps.push(Box::new(move |s| {
+                if s.part != "seq" || s.lens.len() != 1 {
+                    return vec![];
+                }
+                let l = size_class_lens(s.s_hw, s.r_hw, &s.main_dg(s.lens[0]))[c];
+                if l < s.lens[0] {
+                    vec![Scn { lens: vec![l], ..s.clone() }]
+                } else {
+                    vec![]
+                }
+            }));
+        }
     }
     // smaller inputs of the same kind
-    if scn.part == "udp" {
+    if matches!(scn.part.as_str(), "udp" | "seq" | "b2b") {
         for l in [0usize, 1, 8, 64, 100, 200, 300] {
-            cands.push(Box::new(move |s| if s.part == "udp" && s.lens.len() == 1 && l < s.lens[0] { Scn { lens: vec![l], ..s.clone() } } else { s.clone() }));
+            steps.push(Box::new(move |s| if s.part == "udp" && s.lens.len() == 1 && l < s.lens[0] { vec![Scn { lens: vec![l], ..s.clone() }] } else { vec![] }));
         }
     }
     if scn.part == "tcp" {
         for l in [0usize, 1, 100, 1000, 2000, 3000] {
-            cands.push(Box::new(move |s| if l < s.lens[0] { Scn { lens: vec![l], ..s.clone() } } else { s.clone() }));
+            steps.push(Box::new(move |s| if l < s.lens[0] { vec![Scn { lens: vec![l], ..s.clone() }] } else { vec![] }));
         }
     }
-    for c in &cands {
-        let cand = c(&cur);
-        if cand == cur || !cand.feasible() {
-            continue;
+    // to a fixpoint: a reset that did not reproduce may do so once another dimension is reset
+    for _pass in 0..4 {
+        let before = cur.clone();
+        for st in &steps {
+            for cand in st(&cur) {
+                if cand == cur || !cand.feasible() {
+                    continue;
+                }
+                if let Some((d, f)) = check(&cand, &prefix) {
+                    cur = cand;
+                    det = d;
+                    flag = f;
+                    break;
+                }
+            }
         }
-        if let Some((d, f)) = check(&cand, &prefix) {
-            cur = cand;
-            det = d;
-            flag = f;
+        if cur == before {
+            break;
         }
     }
     let name = if keep_name { sig.to_string() } else { final_sig(&prefix, &tag, &cur, flag) };
@@ -460,7 +648,7 @@ fn finalize(sig: &str, scn: &Scn, _detail: &str) -> Result<(String, Scn, String)
 
 pub fn run(tier: Tier) -> i32 {
     let mut rep = Report::new("C20", tier);
-    rep.assumptions.push("two real smoltcp Interfaces per world joined by a loss-free, order-preserving in-memory network (SimDevice); time is the harness' Instant, advanced 100us per exchange round (TCP: jumps to poll_at when idle)".into());
+    rep.assumptions.push("two real smoltcp Interfaces per world joined by a loss-free, order-preserving in-memory network (lowpan::world::FillDevice: like SimDevice, but every transmit buffer is pre-filled with 0xa5 -- some jobs 0x5a/0xff/0x00 -- before smoltcp writes the frame, so header bits it fails to write are visible); time is the harness' Instant, advanced 100us per exchange round (TCP: jumps to poll_at when idle)".into());
     rep.assumptions.push(format!(
         "delivery is demanded only for datagrams whose uncompressed IPv6 size is <= min(FRAGMENTATION_BUFFER_SIZE={}, REASSEMBLY_BUFFER_SIZE={}); larger ones only have to be safe",
         smoltcp::config::FRAGMENTATION_BUFFER_SIZE,
@@ -468,6 +656,7 @@ pub fn run(tier: Tier) -> i32 {
     ));
     rep.assumptions.push("fragment-order part: delivery demanded only when FRAG1 arrives first (lenient reading of 'any order the reassembler can track'); every order must be safe (the original datagram at most once, or nothing)".into());
     rep.assumptions.push("neighbors are resolved by the real NS/NA exchange before each scenario (warm-up datagrams on separate sockets); a node with a SHORT hardware address cannot be resolved (NDISC link-layer option must be 8 octets) so it only sends to multicast or to a neighbor that solicited it".into());
+    rep.assumptions.push(format!("each node owns its hardware-derived link-local address plus at most IFACE_MAX_ADDR_COUNT-1 = {} more; sequence scenarios needing more distinct unicast classes on one node are skipped in this build variant", smoltcp::config::IFACE_MAX_ADDR_COUNT - 1));
     rep.assumptions.push("frames handed to the device carry no FCS: limit is 125 octets (127 with FCS)".into());
     rep.assumptions.push("the sender never emits context-based (stateful) IPHC: the ctx class has address context 0 installed on both nodes and is expected to travel uncompressed".into());
     rep.assumptions.push("receiver accepts the multicast classes mc-8bit/32bit/48bit/full through Interface::set_any_ip(true) because join_multicast_group on this medium is itself under test (mld part)".into());
@@ -522,6 +711,8 @@ pub fn run(tier: Tier) -> i32 {
     total.merge(udp);
     total.merge(par_run(&p.b2b, 16, |s, a| run_b2b(s, a)));
     let t_b2b = rep.t0.elapsed().as_secs_f64();
+    total.merge(par_run(&p.seq, 16, |s, a| run_b2b(s, a)));
+    let t_seq = rep.t0.elapsed().as_secs_f64();
     total.merge(par_run(&p.perm, 8, |s, a| run_perm(s, a)));
     let t_perm = rep.t0.elapsed().as_secs_f64();
     total.merge(par_run(&p.icmp, 16, |s, a| run_icmp(s, a)));
@@ -593,7 +784,7 @@ pub fn run(tier: Tier) -> i32 {
     rep.cov("distinct_outcomes", json!(total.outcomes));
     rep.cov("notes", json!(total.notes));
     rep.cov("back_to_back_exchanges_delivered_in_a_different_order (allowed)", json!(total.reordered));
-    rep.cov("wall_s_after_part", json!({"udp": t_udp, "b2b": t_b2b, "perm": t_perm, "icmp": t_icmp, "tcp": t_tcp}));
+    rep.cov("wall_s_after_part", json!({"udp": t_udp, "b2b": t_b2b, "seq": t_seq, "perm": t_perm, "icmp": t_icmp, "tcp": t_tcp}));
     rep.samples = total.samples.clone();
     rep.finish()
 }
